@@ -664,7 +664,8 @@ def save_cog_with_dask(
     ydim = xx_odc.ydim
     data_chunks: Tuple[int, int] = xx.data.chunksize[ydim : ydim + 2]
     if isinstance(blocksize, Unset):
-        blocksize = [data_chunks, int(max(*data_chunks) // 2)]
+        # 1-pixel chunks: overview blocksize of 0 is not a valid tile size
+        blocksize = [data_chunks, max(int(max(*data_chunks) // 2), 1)]
 
     gdal_metadata = None if stats is False else ""
 
